@@ -3,7 +3,9 @@ import Mercure.Lemmas.Timed
 /-
   C16 — Connections respect heartbeat cadence, maximum duration and token expiry.
   Over the timed model of the connection loop, for all timeouts (0 = disabled), expiry absent or
-  anywhere, arbitrary arrival times, optional client close, any horizon.
+  anywhere, arbitrary arrival times, optional client close, any horizon — and for EVERY resolution
+  `ch` of the same-instant races that Go's `select` resolves at random (`runCh … ch`; `run` is the
+  resolution `[]`, `runAll` enumerates exactly the traces `runCh … ch`: `runAll_sound`, `runCh_mem_runAll`).
 
   Partial by nature: that net/http honours SetWriteDeadline and that `select` serves a due timer
   promptly are runtime assumptions; the virtual clock of the correspondence makes them exact.
@@ -33,6 +35,13 @@ def Chain (R : Nat → Nat → Prop) : List Nat → Prop
 
 def Sorted (arr : List (Nat × Nat)) : Prop := arr.Pairwise (fun a b => a.1 ≤ b.1)
 
+theorem isEnd_eq_isE (e : Ev) : Ev.isEnd e = isE e := by cases e <;> rfl
+
+theorem writeTimes_eq_wtimes (tr : List (Nat × Ev)) : writeTimes tr = wtimes tr := by
+  have : (fun p : Nat × Ev => Ev.isWrite p.2) = (fun p => isW p.2) := by
+    funext p; cases p.2 <;> rfl
+  simp only [writeTimes, wtimes, this]
+
 /-- The write deadline is the earlier of the maximum duration and the token expiry. -/
 theorem deadline_is_earlier_of (c : Cfg) :
     (c.wt = 0 ∧ c.exp = none → c.deadline = none) ∧
@@ -47,25 +56,21 @@ theorem deadline_is_earlier_of (c : Cfg) :
 
 /-- Nothing is written successfully at or after the deadline. -/
 theorem no_write_after_deadline (c : Cfg) (arr : List (Nat × Nat)) (close : Option Nat) (hz d : Nat)
-    (hd : c.deadline = some d) (hpos : 0 < d) :
-    ∀ p ∈ run c arr close hz, Ev.isWrite p.2 = true → p.1 < d := by
+    (ch : List Nat) (hd : c.deadline = some d) (hpos : 0 < d) :
+    ∀ p ∈ runCh c arr close hz ch, Ev.isWrite p.2 = true → p.1 < d := by
   intro p hp hw
-  refine run_write_lt c arr close hz d hd hpos p hp ?_
+  refine run_write_lt c arr close hz d ch hd hpos p hp ?_
   cases h : p.2 <;> simp [h, Ev.isWrite] at hw <;> rfl
 
 /-- On an open stream something is written at least once per heartbeat interval: consecutive
     successful writes are at most `hb` apart… -/
-theorem heartbeat_gap (c : Cfg) (arr : List (Nat × Nat)) (close : Option Nat) (hz : Nat)
+theorem heartbeat_gap (c : Cfg) (arr : List (Nat × Nat)) (close : Option Nat) (hz : Nat) (ch : List Nat)
     (hs : Sorted arr) (hh : c.hb ≠ 0) :
-    Chain (fun a b => b ≤ a + c.hb) (writeTimes (run c arr close hz)) := by
+    Chain (fun a b => b ≤ a + c.hb) (writeTimes (runCh c arr close hz ch)) := by
   have _ := hs
-  have h := run_heartbeat_gap c arr close hz hh
-  have e1 : writeTimes (run c arr close hz) = wtimes (run c arr close hz) := by
-    have : (fun p : Nat × Ev => Ev.isWrite p.2) = (fun p => isW p.2) := by
-      funext p; cases p.2 <;> rfl
-    simp only [writeTimes, wtimes, this]
-  rw [e1]
-  generalize wtimes (run c arr close hz) = l at h
+  have h := run_heartbeat_gap c arr close hz ch hh
+  rw [writeTimes_eq_wtimes]
+  generalize wtimes (runCh c arr close hz ch) = l at h
   induction l with
   | nil => trivial
   | cons a l ih =>
@@ -75,64 +80,156 @@ theorem heartbeat_gap (c : Cfg) (arr : List (Nat × Nat)) (close : Option Nat) (
 
 /-- …and a stream that has not been ended is never silent for a whole interval up to the horizon. -/
 theorem heartbeat_until_horizon (c : Cfg) (arr : List (Nat × Nat)) (close : Option Nat) (hz : Nat)
-    (hs : Sorted arr) (hh : c.hb ≠ 0)
-    (hopen : ∀ p ∈ run c arr close hz, Ev.isEnd p.2 = false) :
-    ∃ t, (writeTimes (run c arr close hz)).getLast? = some t ∧ hz < t + c.hb := by
-  have e1 : writeTimes (run c arr close hz) = wtimes (run c arr close hz) := by
-    have : (fun p : Nat × Ev => Ev.isWrite p.2) = (fun p => isW p.2) := by
-      funext p; cases p.2 <;> rfl
-    simp only [writeTimes, wtimes, this]
-  rw [e1]
-  rcases run_heartbeat_until_horizon c arr close hz hs hh with ⟨p, hp, hpe⟩ | h
+    (ch : List Nat) (hs : Sorted arr) (hh : c.hb ≠ 0)
+    (hopen : ∀ p ∈ runCh c arr close hz ch, Ev.isEnd p.2 = false) :
+    ∃ t, (writeTimes (runCh c arr close hz ch)).getLast? = some t ∧ hz < t + c.hb := by
+  rw [writeTimes_eq_wtimes]
+  rcases run_heartbeat_until_horizon c arr close hz ch hs hh with ⟨p, hp, hpe⟩ | h
   · have := hopen p hp
-    cases h : p.2 <;> simp [h, Ev.isEnd, isE] at this hpe
+    rw [isEnd_eq_isE, hpe] at this
+    cases this
   · exact h
 
 /-- With a maximum duration configured the hub ends the connection itself exactly one dispatch
     timeout before the deadline (at once if that instant is already past) — and not earlier —
-    unless the client left first. -/
+    unless the client left first.
+
+    CHANGED for nondeterministic ties: the new hypothesis `hlt : d - c.dt < d` (the disconnection instant is
+    strictly before the write deadline, i.e. `c.dt ≠ 0` and `d ≠ 0`). Without it the statement is false for
+    some resolutions (`self_disconnect_tie_counterexample`); what holds in general is
+    `self_disconnect_or_deadline_at_tie`, and for the fixed order of `run` the statement holds as before
+    (`self_disconnect_exact_fixed_order`). Conclusion unchanged; note that under ties a comment or events may
+    be written at the instant `d - c.dt` itself, before the `selfClose` entry (`p.1 ≤ d - c.dt` allows it). -/
 theorem self_disconnect_exact (c : Cfg) (arr : List (Nat × Nat)) (close : Option Nat) (hz d : Nat)
+    (ch : List Nat)
     (hs : Sorted arr) (hw : c.wt ≠ 0) (hd : c.deadline = some d) (hhz : d - c.dt ≤ hz)
-    (hc : ∀ x, close = some x → d - c.dt < x) :
-    (run c arr close hz).getLast? = some (d - c.dt, .selfClose) ∧
-    (∀ p ∈ (run c arr close hz).dropLast, Ev.isEnd p.2 = false ∧ p.2 ≠ .failed ∧ p.1 ≤ d - c.dt) := by
-  obtain ⟨tr, h1, h2⟩ := run_self_disconnect c arr close hz d hs hw hd hhz hc
+    (hc : ∀ x, close = some x → d - c.dt < x) (hlt : d - c.dt < d) :
+    (runCh c arr close hz ch).getLast? = some (d - c.dt, .selfClose) ∧
+    (∀ p ∈ (runCh c arr close hz ch).dropLast, Ev.isEnd p.2 = false ∧ p.2 ≠ .failed ∧ p.1 ≤ d - c.dt) := by
+  obtain ⟨tr, h1, h2⟩ := run_self_disconnect c arr close hz d ch hs hw hd hhz hc hlt
   rw [h1]
   refine ⟨by simp, ?_⟩
   rw [List.dropLast_concat]
   intro p hp
   obtain ⟨h3, h4, h5⟩ := h2 p hp
-  refine ⟨?_, h4, h5⟩
-  cases h : p.2 <;> simp [h, Ev.isEnd, isE] at h3 ⊢
+  exact ⟨by rw [isEnd_eq_isE]; exact h3, h4, h5⟩
+
+/-- The old statement of `self_disconnect_exact`, unchanged, for the fixed order close < disconnection <
+    heartbeat < arrival (`run`). -/
+theorem self_disconnect_exact_fixed_order (c : Cfg) (arr : List (Nat × Nat)) (close : Option Nat) (hz d : Nat)
+    (hs : Sorted arr) (hw : c.wt ≠ 0) (hd : c.deadline = some d) (hhz : d - c.dt ≤ hz)
+    (hc : ∀ x, close = some x → d - c.dt < x) :
+    (run c arr close hz).getLast? = some (d - c.dt, .selfClose) ∧
+    (∀ p ∈ (run c arr close hz).dropLast, Ev.isEnd p.2 = false ∧ p.2 ≠ .failed ∧ p.1 ≤ d - c.dt) := by
+  obtain ⟨tr, h1, h2⟩ := run_self_disconnect_fixed c arr close hz d hs hw hd hhz hc
+  rw [h1]
+  refine ⟨by simp, ?_⟩
+  rw [List.dropLast_concat]
+  intro p hp
+  obtain ⟨h3, h4, h5⟩ := h2 p hp
+  exact ⟨by rw [isEnd_eq_isE]; exact h3, h4, h5⟩
+
+/-- What holds for every resolution of the ties without `d - c.dt < d`: the connection ends exactly at
+    `d - c.dt`, either by the disconnection timer or — only when `d - c.dt = d` — by a write that `select`
+    served at that same instant before the timer and that hit the deadline. Nothing earlier in the trace is
+    an end or a failure, or later than `d - c.dt`. -/
+theorem self_disconnect_or_deadline_at_tie (c : Cfg) (arr : List (Nat × Nat)) (close : Option Nat) (hz d : Nat)
+    (ch : List Nat)
+    (hs : Sorted arr) (hw : c.wt ≠ 0) (hd : c.deadline = some d) (hhz : d - c.dt ≤ hz)
+    (hc : ∀ x, close = some x → d - c.dt < x) :
+    ∃ tr, (runCh c arr close hz ch = tr ++ [(d - c.dt, .selfClose)] ∨
+        (¬ d - c.dt < d ∧ runCh c arr close hz ch = tr ++ [(d - c.dt, .failed), (d - c.dt, .endWrite)])) ∧
+      ∀ p ∈ tr, Ev.isEnd p.2 = false ∧ p.2 ≠ .failed ∧ p.1 ≤ d - c.dt := by
+  obtain ⟨tr, h1, h2⟩ := run_self_disconnect_tie c arr close hz d ch hs hw hd hhz hc
+  refine ⟨tr, h1, fun p hp => ?_⟩
+  obtain ⟨h3, h4, h5⟩ := h2 p hp
+  exact ⟨by rw [isEnd_eq_isE]; exact h3, h4, h5⟩
+
+/-- `self_disconnect_exact` without `d - c.dt < d` is false for some resolution of a tie: dispatch timeout 0,
+    disconnection timer and heartbeat both due at 1000 = the deadline; choice 0 serves the timer, choice 1
+    serves the heartbeat, whose write fails at the deadline. -/
+theorem self_disconnect_tie_counterexample :
+    let c : Cfg := { wt := 1000, dt := 0, hb := 1000, exp := none }
+    c.deadline = some 1000 ∧
+    runCh c [] none 2000 [0] = [(0, .comment), (1000, .selfClose)] ∧
+    runCh c [] none 2000 [1] = [(0, .comment), (1000, .failed), (1000, .endWrite)] ∧
+    (runCh c [] none 2000 [1]).getLast? ≠ some (1000 - c.dt, .selfClose) := by
+  refine ⟨by decide +kernel, by decide +kernel, by decide +kernel, by decide +kernel⟩
 
 /-- Without a maximum duration the hub never ends the connection by a timer… -/
 theorem no_timer_without_max_duration (c : Cfg) (arr : List (Nat × Nat)) (close : Option Nat) (hz : Nat)
-    (hw : c.wt = 0) : ∀ p ∈ run c arr close hz, p.2 ≠ .selfClose := by
-  exact run_no_selfClose c arr close hz hw
+    (ch : List Nat) (hw : c.wt = 0) : ∀ p ∈ runCh c arr close hz ch, p.2 ≠ .selfClose := by
+  exact run_no_selfClose c arr close hz ch hw
 
 /-- …it ends it on its first write attempt at or after the token expiry (a token already expired
     when the request is made, e = 0, is refused by C03 before any stream exists)… -/
 theorem ends_on_first_write_after_expiry (c : Cfg) (arr : List (Nat × Nat)) (close : Option Nat) (hz e : Nat)
-    (hw : c.wt = 0) (he : c.exp = some e) (hpos : 0 < e) :
-    ∀ t, (t, Ev.failed) ∈ run c arr close hz →
-      e ≤ t ∧ (run c arr close hz).getLast? = some (t, .endWrite) ∧
-      (∀ p ∈ run c arr close hz, Ev.isWrite p.2 = true → p.1 < e) := by
+    (ch : List Nat) (hw : c.wt = 0) (he : c.exp = some e) (hpos : 0 < e) :
+    ∀ t, (t, Ev.failed) ∈ runCh c arr close hz ch →
+      e ≤ t ∧ (runCh c arr close hz ch).getLast? = some (t, .endWrite) ∧
+      (∀ p ∈ runCh c arr close hz ch, Ev.isWrite p.2 = true → p.1 < e) := by
   intro t ht
   have hd : c.deadline = some e := by simp [Cfg.deadline, hw, he]
-  obtain ⟨h1, h2⟩ := run_failed c arr close hz e hd t ht
-  exact ⟨h1, h2, no_write_after_deadline c arr close hz e hd hpos⟩
+  obtain ⟨h1, h2⟩ := run_failed c arr close hz e ch hd t ht
+  exact ⟨h1, h2, no_write_after_deadline c arr close hz e ch hd hpos⟩
 
 /-- …and never when the token does not expire. -/
 theorem never_ends_without_deadline (c : Cfg) (arr : List (Nat × Nat)) (close : Option Nat) (hz : Nat)
-    (hw : c.wt = 0) (he : c.exp = none) :
-    ∀ p ∈ run c arr close hz, p.2 ≠ .selfClose ∧ p.2 ≠ .failed ∧ p.2 ≠ .endWrite := by
-  exact run_no_end c arr close hz hw (by simp [Cfg.deadline, hw, he])
+    (ch : List Nat) (hw : c.wt = 0) (he : c.exp = none) :
+    ∀ p ∈ runCh c arr close hz ch, p.2 ≠ .selfClose ∧ p.2 ≠ .failed ∧ p.2 ≠ .endWrite := by
+  exact run_no_end c arr close hz ch hw (by simp [Cfg.deadline, hw, he])
+
+/-! ### the acceptor `runAll` and the resolutions `runCh … ch` -/
+
+/-- `run` is the resolution in which every tie goes to the first ready case (close, disconnection,
+    heartbeat, arrival). -/
+theorem run_eq_runCh_nil (c : Cfg) (arr : List (Nat × Nat)) (close : Option Nat) (hz : Nat) :
+    run c arr close hz = runCh c arr close hz [] := rfl
+
+/-- Every trace the acceptor accepts is the trace of some resolution: the theorems above apply to it. -/
+theorem runAll_sound (c : Cfg) (arr : List (Nat × Nat)) (close : Option Nat) (hz : Nat) :
+    ∀ tr ∈ runAll c arr close hz, ∃ ch, tr = runCh c arr close hz ch :=
+  Mercure.Timed.runAll_sound c arr close hz
+
+/-- The acceptor accepts the trace of every resolution. -/
+theorem runCh_mem_runAll (c : Cfg) (arr : List (Nat × Nat)) (close : Option Nat) (hz : Nat) (ch : List Nat) :
+    runCh c arr close hz ch ∈ runAll c arr close hz :=
+  Mercure.Timed.runCh_mem_runAll c arr close hz ch
+
+/-- A property of all resolutions is a property of everything the acceptor accepts (and conversely). -/
+theorem forall_runAll_iff (c : Cfg) (arr : List (Nat × Nat)) (close : Option Nat) (hz : Nat)
+    (P : List (Nat × Ev) → Prop) :
+    (∀ tr ∈ runAll c arr close hz, P tr) ↔ ∀ ch, P (runCh c arr close hz ch) := by
+  constructor
+  · intro h ch; exact h _ (runCh_mem_runAll c arr close hz ch)
+  · intro h tr htr
+    obtain ⟨ch, rfl⟩ := runAll_sound c arr close hz tr htr
+    exact h ch
 
 /-! non-vacuity: the three traces replayed by hand against the real handler (DESIGN §4.4) -/
 example : run { wt := 60000, dt := 5000, hb := 25000, exp := none } [(30000, 1)] none 200000
     = [(0, .comment), (25000, .comment), (30000, .event 1), (55000, .selfClose)] := by decide +kernel
 example : run { wt := 0, dt := 5000, hb := 40000, exp := some 90000 } [] none 200000
     = [(0, .comment), (40000, .comment), (80000, .comment), (120000, .failed), (120000, .endWrite)] := by decide +kernel
+
+/-! a genuine tie resolved two ways: the heartbeat and an arrival are both due at 1000. Choice 0 serves the
+    heartbeat (a comment, then the event, both at 1000); choice 1 serves the arrival, whose write re-arms
+    the heartbeat timer (no comment at 1000). Both satisfy the theorems; the acceptor accepts exactly these. -/
+example : runCh { wt := 0, dt := 0, hb := 1000, exp := none } [(1000, 7)] none 1500 [0]
+    = [(0, .comment), (1000, .comment), (1000, .event 7)] := by decide +kernel
+example : runCh { wt := 0, dt := 0, hb := 1000, exp := none } [(1000, 7)] none 1500 [1]
+    = [(0, .comment), (1000, .event 7)] := by decide +kernel
+example : runAll { wt := 0, dt := 0, hb := 1000, exp := none } [(1000, 7)] none 1500
+    = [[(0, .comment), (1000, .comment), (1000, .event 7)], [(0, .comment), (1000, .event 7)]] := by decide +kernel
+/-! a tie between the disconnection timer and an arrival (dt ≠ 0): the arrival may be written first, at the
+    same instant, and then the timer fires — `self_disconnect_exact` holds of both resolutions. -/
+example : runCh { wt := 60000, dt := 5000, hb := 0, exp := none } [(55000, 1)] none 200000 [0]
+    = [(0, .comment), (55000, .selfClose)] := by decide +kernel
+example : runCh { wt := 60000, dt := 5000, hb := 0, exp := none } [(55000, 1)] none 200000 [1]
+    = [(0, .comment), (55000, .event 1), (55000, .selfClose)] := by decide +kernel
+/-! a tie between the client's close and the heartbeat: a comment may be written before the close. -/
+example : runCh { wt := 0, dt := 0, hb := 1000, exp := none } [] (some 1000) 5000 [1]
+    = [(0, .comment), (1000, .comment), (1000, .clientClose)] := by decide +kernel
 
 end Mercure.C16
 
@@ -141,6 +238,13 @@ end Mercure.C16
 #print axioms Mercure.C16.heartbeat_gap
 #print axioms Mercure.C16.heartbeat_until_horizon
 #print axioms Mercure.C16.self_disconnect_exact
+#print axioms Mercure.C16.self_disconnect_exact_fixed_order
+#print axioms Mercure.C16.self_disconnect_or_deadline_at_tie
+#print axioms Mercure.C16.self_disconnect_tie_counterexample
 #print axioms Mercure.C16.no_timer_without_max_duration
 #print axioms Mercure.C16.ends_on_first_write_after_expiry
 #print axioms Mercure.C16.never_ends_without_deadline
+#print axioms Mercure.C16.run_eq_runCh_nil
+#print axioms Mercure.C16.runAll_sound
+#print axioms Mercure.C16.runCh_mem_runAll
+#print axioms Mercure.C16.forall_runAll_iff
